@@ -60,7 +60,12 @@ func (d *Comma) Evaluation(
 			return err
 		}
 
-		tArray = append(tArray, p.GetLastEvaluatedTPointer().(*base.T))
+		evaluatedT, ok := p.GetLastEvaluatedTPointer().(*base.T)
+		if !ok {
+			return fmt.Errorf("syntax error")
+		}
+
+		tArray = append(tArray, evaluatedT)
 
 		nextT, err = p.Read()
 		if err != nil {
